@@ -227,13 +227,22 @@ def bounded(tier, seed):
                     em = PauliErrorModel(*d, deformation_name=defo)
                     why = native_check(code, em, p)
                     ev += 1
+                    if why is None and 0 < p < 1:
+                        # the same contract after the model was USED on this (code, rate): matching weights computed, errors sampled (a decoder was built, a trial run);
+                        # the per-qubit channel must still be the stated one (checked against the direction, not against the model's own cached table)
+                        from bounded import noise as N
+                        em.get_weights(code, p); em.generate(code, p, rng=np.random.default_rng(0)); em.get_weights(code, p)
+                        why = N.nat_dist_of(em, code, d, p, defo) or native_check(code, em, p)
+                        ev += 1
+                        if why:
+                            why = 'after get_weights / generate on the same (model, code, rate): ' + why
                     if d[1] > 0 and 0 < p:
                         nt.add((cn, d, defo, p))
                     if len(samples) < 3:
                         samples.append(dict(code=cn, n=code.n, direction=d, deformation=defo, error_rate=p, ok=why is None))
                     if why:
                         viol.append(dict(obligation='C18.bounded', input=dict(code=cn, direction=list(d), deformation=defo, error_rate=p), detail=why))
-    return dict(bound='all 4^n errors, n <= %d' % (5 if tier == 'quick' else 6), evaluations=ev, distinct_nontrivial=len(nt),
+    return dict(bound='all 4^n errors, n <= %d, on a fresh model and again after get_weights / generate were called on it' % (5 if tier == 'quick' else 6), evaluations=ev, distinct_nontrivial=len(nt),
                 rule='(code, direction, deformation, rate) x all 4^n errors through the real error_probability; non-trivial iff r_y>0 and p>0',
                 samples=samples, violations=viol[:3])
 
@@ -250,4 +259,16 @@ def replay(r):
 
 
 def replay_file(data):
+    inp = (data or {}).get('input') or {}
+    if 'direction' in inp and 'code' in inp:
+        from panqec.error_models import PauliErrorModel
+        from bounded import noise as N
+        code = dict((cn, c) for c, cn in _models())[inp['code']]
+        d, defo, rate = tuple(inp['direction']), inp.get('deformation'), inp.get('error_rate', 0.3)
+        em = PauliErrorModel(*d, deformation_name=defo)
+        why = native_check(code, em, rate)
+        if why is None and 0 < rate < 1:
+            em.get_weights(code, rate); em.generate(code, rate, rng=np.random.default_rng(0)); em.get_weights(code, rate)
+            why = N.nat_dist_of(em, code, d, rate, defo) or native_check(code, em, rate)
+        return dict(confirmed=bool(why), input=inp, detail=why or 'product formula and normalisation hold, also after the model was used')
     return replay({})
